@@ -89,7 +89,7 @@ func isTrivialProg(p drive.Program) bool {
 
 func (s navigate) Run(c *Ctx, i int) {
 	r := prng.New(prng.Mix(c.Seed, 8, uint64(i)))
-	doc := genDoc(r, i%2 == 0, 5)
+	doc := genDocBig(r, i%2 == 0, 5, true)
 	data := doc.Out.Bytes
 	base := drive.RunRead(drive.ReadCase{Data: data, Plan: planWhole(), Prog: drive.Full})
 	c.Steps += int64(base.Reads)
@@ -114,7 +114,14 @@ func (s navigate) Run(c *Ctx, i int) {
 		plans := []sim.ReadPlan{planWhole()}
 		switch dr.Intn(3) {
 		case 0:
-			plans = append(plans, planBytes())
+			if len(data) > 20000 {
+				// a long document one byte at a time costs more than it can tell: chunks of a few hundred bytes instead
+				p := planRandom(dr, 64, false)
+				p.Tail = dr.Range(100, 5000)
+				plans = append(plans, p)
+			} else {
+				plans = append(plans, planBytes())
+			}
 		case 1:
 			plans = append(plans, planRandom(dr, len(data), dr.Bool()))
 		default:
